@@ -5,7 +5,9 @@
 (* run; 0 stands for the zero time (no activation / never ran): every         *)
 (* activation instant of an entry is >= 1.                                    *)
 (*                                                                            *)
-(*   reset {loc}                 new Cron; loc = UTC offset (s) of WithLocation *)
+(*   reset {loc, chain}          new Cron; loc = UTC offset (s) of WithLocation; *)
+(*                               chain = the WithChain option: "none" |          *)
+(*                               "recover" | "skip" | "delay" | "recover+delay"  *)
 (*   sched_call {id,p,ph} / sched_ret {id}   Schedule/AddFunc of an entry whose *)
 (*                               schedule, READ IN THE CRON'S LOCATION, is the  *)
 (*                               set {a : a % p = ph} (p = 0: never fires)      *)
@@ -19,6 +21,8 @@
 (*   run {id}                    the scheduler decided to start the job of id   *)
 (*                               (its Logger line "run")                        *)
 (*   jobstart {id} / jobend {id} the job function began / returned              *)
+(*   jobskip {id}                an invocation of the entry's wrapped job        *)
+(*                               returned without entering the job function      *)
 (*   nx {off}                    Schedule.Next was called with a time whose     *)
 (*                               zone offset is off                             *)
 (*   quiescent                   every goroutine is blocked, nothing parked at  *)
@@ -33,27 +37,38 @@
 (* both outcomes are accepted below (owed / o-fields).  With the fake clock a *)
 (* timer armed with a non-positive duration fires at the next step only, so   *)
 (* "the job must have started" is demanded at a quiescent point that follows  *)
-(* a clock step taken after the last mutation (fresh).                        *)
+(* a clock step taken after the last mutation (fresh).  Such a quiescent point *)
+(* is reported and judged IMMEDIATELY after the step (a scheduler that leaves  *)
+(* a due entry for a later wake-up - a timer it re-arms with a non-positive    *)
+(* duration - has not started the job "at that wake-up").                      *)
 EXTENDS Integers, Sequences, FiniteSets, TLC
 
 Bad(why) == [bad |-> TRUE, why |-> why]
 IsBad(c) == c.bad
 
-CInit(loc) == [bad |-> FALSE, why |-> "", loc |-> loc, now |-> 0,
+HasDelay(ch) == ch \in {"delay", "recover+delay"}
+HasSkip(ch) == ch = "skip"
+
+CInitC(loc, chain) ==
+              [bad |-> FALSE, why |-> "", loc |-> loc, chain |-> chain, now |-> 0,
                run |-> "no",            \* "no" | "yes" | "stopping" (a Stop call is in flight)
                ents |-> << >>,          \* id -> entry record
                op |-> "none", snap |-> << >>, fresh |-> FALSE,
                jobs |-> << >>,          \* job instances decided and not yet returned: [id, st, ep]
                stops |-> 0]             \* number of Stop calls that have returned
+CInit(loc) == CInitC(loc, "none")
 
 (* The next activation after t: the least instant later than t in the set. *)
 NextAct(p, ph, t) == IF p = 0 THEN 0 ELSE CHOOSE a \in (t + 1)..(t + p) : a % p = ph
 
 NewEntry(p, ph, nx) == [p |-> p, ph |-> ph, st |-> "adding", next |-> nx, prev |-> 0,
-                        onext |-> 0, oprev |-> 0, owed |-> 0]
+                        onext |-> 0, oprev |-> 0, owed |-> 0, ended |-> 0]
 Live(c) == {i \in DOMAIN c.ents : c.ents[i].st = "live"}
 
+(* an EntryID identifies an entry within a Cron: Schedule never hands out one that is in use or was used *)
 CSchedCall(c, e) ==
+  IF e.id \in DOMAIN c.ents THEN Bad("Schedule returned an entry id that another entry already has")
+  ELSE
   [c EXCEPT !.ents = (e.id :> NewEntry(e.p, e.ph, IF c.run = "yes" THEN NextAct(e.p, e.ph, c.now) ELSE 0)) @@ c.ents,
             !.op = "sched", !.fresh = IF c.run = "yes" THEN FALSE ELSE c.fresh]
 CSchedRet(c, e) == [c EXCEPT !.ents[e.id].st = "live", !.op = "none"]
@@ -111,7 +126,7 @@ CRun(c, e) ==
   ELSE IF c.ents[e.id].owed = 0 THEN
          Bad("a job was started before its activation instant was reached or twice for the same one")
   ELSE [c EXCEPT !.ents[e.id].owed = 0,
-                 !.jobs = Append(c.jobs, [id |-> e.id, st |-> "decided", ep |-> c.stops])]
+                 !.jobs = Append(c.jobs, [id |-> e.id, st |-> "decided", ep |-> c.stops, e0 |-> c.ents[e.id].ended])]
 
 First(jobs, id, st) == CHOOSE j \in 1..Len(jobs) : /\ jobs[j].id = id /\ jobs[j].st = st
                                                    /\ \A k \in 1..(j - 1) : ~(jobs[k].id = id /\ jobs[k].st = st)
@@ -123,7 +138,17 @@ CJobStart(c, e) ==
   ELSE [c EXCEPT !.jobs[First(c.jobs, e.id, "decided")].st = "running"]
 CJobEnd(c, e) ==
   IF ~Has(c.jobs, e.id, "running") THEN c
-  ELSE [c EXCEPT !.jobs = DropAt(c.jobs, First(c.jobs, e.id, "running"))]
+  ELSE [c EXCEPT !.jobs = DropAt(c.jobs, First(c.jobs, e.id, "running")), !.ents[e.id].ended = c.ents[e.id].ended + 1]
+(* SkipIfStillRunning works per entry: an invocation may be skipped only because an invocation OF THE SAME ENTRY *)
+(* was still running when it arrived (judged leniently: another invocation of the entry exists, or one has ended  *)
+(* since this one was decided).                                                                                  *)
+CJobSkip(c, e) ==
+  IF ~Has(c.jobs, e.id, "decided") THEN Bad("a job ran more often than the scheduler decided to start it")
+  ELSE LET j == First(c.jobs, e.id, "decided")
+           others == \E k \in 1..Len(c.jobs) : k # j /\ c.jobs[k].id = e.id
+       IN IF HasSkip(c.chain) /\ (others \/ c.ents[e.id].ended > c.jobs[j].e0)
+            THEN [c EXCEPT !.jobs = DropAt(c.jobs, j)]
+            ELSE Bad("a started job was skipped although no earlier invocation of the same entry was still running")
 
 (* Entries: each live entry once, with the pair in use.  While a start is owed and undecided the *)
 (* snapshot may have been taken on either side of the wake-up.                                   *)
@@ -146,7 +171,11 @@ CEntriesRet(c, e) ==
 
 CQuiescent(c) ==
   IF c.op # "none" THEN c
-  ELSE IF \E j \in 1..Len(c.jobs) : c.jobs[j].st = "decided" THEN Bad("a job the scheduler decided to start never began")
+  ELSE IF \E j \in 1..Len(c.jobs) : /\ c.jobs[j].st = "decided"
+                                      /\ ~(HasDelay(c.chain) /\ Has(c.jobs, c.jobs[j].id, "running"))
+    THEN IF HasDelay(c.chain) \/ HasSkip(c.chain)
+           THEN Bad("a started job was held back although no earlier invocation of the same entry was still running")
+           ELSE Bad("a job the scheduler decided to start never began")
   ELSE IF c.run = "yes" /\ c.fresh /\ \E i \in Live(c) : c.ents[i].owed > 0
     THEN Bad("a due job was not started although the clock reached its activation instant")
   ELSE c
@@ -155,7 +184,7 @@ CNx(c, e) == IF e.off # c.loc THEN Bad("Schedule.Next was handed a time that is 
 CStuck(c, e) == IF e.n > 0 THEN Bad("wedged: a Cron call never returned") ELSE c
 
 CNext(c, e) ==
-  IF e.ev = "reset" THEN CInit(e.loc)
+  IF e.ev = "reset" THEN CInitC(e.loc, e.chain)
   ELSE IF IsBad(c) THEN c
   ELSE CASE e.ev = "sched_call"   -> CSchedCall(c, e)
          [] e.ev = "sched_ret"    -> CSchedRet(c, e)
@@ -171,6 +200,7 @@ CNext(c, e) ==
          [] e.ev = "run"          -> CRun(c, e)
          [] e.ev = "jobstart"     -> CJobStart(c, e)
          [] e.ev = "jobend"       -> CJobEnd(c, e)
+         [] e.ev = "jobskip"      -> CJobSkip(c, e)
          [] e.ev = "nx"           -> CNx(c, e)
          [] e.ev = "quiescent"    -> CQuiescent(c)
          [] e.ev = "stuck"        -> CStuck(c, e)
